@@ -123,13 +123,22 @@ Theorem C07_class_errors_table :
      (forall f, callee <> VClosure f) -> call_value ar callee argc = Err TypeError "Can only call functions and methods.").
 Proof. exact class_errors_table. Qed.
 
-(* --- the mini-language: for every program outside the known class, M and S compute the same final state and
-   outcome; inside the known class they provably differ --- *)
-Theorem C07_eval_mech_eq_spec : forall p, known_class p = false -> eval_mech p = eval_spec p.
+(* --- the mini-language: for EVERY program M and S compute the same final state and outcome.  The receiver of a
+   `super` access is the enclosing method's self, as compiler.rs `super_` now pushes it (side condition, re-read from
+   the source); the model variant of the compiler before commit 0fbde2d provably does not refine the Spec --- *)
+Theorem C07_side_super_receiver :
+  src_super_receiver_is_enclosing_method_self = true /\
+  sem_mech_gen (negb src_super_receiver_is_enclosing_method_self) = sem_mech.
+Proof. vm_compute. split; reflexivity. Qed.
+Theorem C07_eval_mech_eq_spec : forall p, eval_mech p = eval_spec p.
 Proof. exact eval_mech_eq_spec. Qed.
-Theorem C07_eval_mech_eq_spec_any_fuel : forall fuel p, known_class p = false ->
-  ev sem_mech fuel ctx0 (TS p) st0 = ev sem_spec fuel ctx0 (TS p) st0.
+Theorem C07_eval_mech_eq_spec_any_fuel : forall fuel c p, c_super c = None -> c_owner c = None ->
+  ev sem_mech fuel c (TS p) st0 = ev sem_spec fuel c (TS p) st0.
 Proof. exact eval_mech_eq_spec_fuel. Qed.
+Theorem C07_eval_mech_eq_spec_refuted_old :
+  exists p, nested_super p = true /\ show_outcome (eval_mech_old p) <> show_outcome (eval_spec p) /\
+            show_outcome (eval_mech p) = show_outcome (eval_spec p).
+Proof. exact eval_mech_eq_spec_refuted_old. Qed.
 Theorem C07_super_captured_at_definition : forall S c st cd st' o, Inv st -> (S = sem_mech \/ S = sem_spec) ->
   exec_class S c st cd = (st', o) ->
   Inv st' /\
@@ -139,10 +148,6 @@ Theorem C07_super_captured_at_definition : forall S c st cd st' o, Inv st -> (S 
                        (forall name sup defctor ms label, cd = CDecl name sup defctor ms label -> mdecls_known ms = false ->
                           stmts_known (is_fun (cl_kind cl)) (cl_body cl) = false)) ncl).
 Proof. exact exec_class_inv. Qed.
-Theorem C07_eval_mech_eq_spec_refuted_in_known_class :
-  exists p, known_class p = true /\ show_outcome (eval_mech p) <> show_outcome (eval_spec p).
-Proof. exact eval_mech_eq_spec_refuted_in_known_class. Qed.
-
 Print Assumptions C07_side_messages.
 Print Assumptions C07_side_arity_test.
 Print Assumptions C07_side_frames_max.
@@ -163,4 +168,5 @@ Print Assumptions C07_class_errors_table.
 Print Assumptions C07_eval_mech_eq_spec.
 Print Assumptions C07_eval_mech_eq_spec_any_fuel.
 Print Assumptions C07_super_captured_at_definition.
-Print Assumptions C07_eval_mech_eq_spec_refuted_in_known_class.
+Print Assumptions C07_eval_mech_eq_spec_refuted_old.
+Print Assumptions C07_side_super_receiver.
